@@ -1000,7 +1000,9 @@ impl<K: TS, V: TS, H> TS for HashMap<K, V, H> {
     }
 
     fn inline_flattened() -> String {
-        panic!("{} cannot be flattened", <Self as crate::TS>::name())
+        // a map is an object type; in parentheses, because a mapped type cannot share its braces
+        // with the other properties of the struct it is flattened into
+        format!("({})", <Self as crate::TS>::inline())
     }
 }
 
